@@ -11,7 +11,7 @@ import pickle
 import threading
 import time
 
-from . import common, env, ops as O
+from . import common, env, gstate, ops as O
 from .common import HarnessError, restore
 from .specs import make_store
 
@@ -377,7 +377,7 @@ def run_execution(sc, root, prefix, visited, explore=True, bound=None, observer=
                     key = (inc.digest(), tuple(x.key() for x in s.workers),
                            tuple(sh.key() for sh in env.STATE.shims), _open_files_key(),
                            tuple(sorted((o, i_ is not None) for _, (i_, o) in env.STATE.flocks.items())),
-                           _attrs_key(store), tuple(_attrs_key(c) for c in per.values()),
+                           _attrs_key(store), tuple(_attrs_key(c) for c in per.values()), gstate.globals_key(),
                            (last.name if last is not None and last.enabled() else None, preempt) if bound is not None else None)
                     if key in visited:
                         exploring = False
